@@ -10,7 +10,7 @@ from worlds import GenomeWorld
 import dbutil
 
 PROPS = ('GambitV.Props.C08', 'GambitV.C08')
-TIE = [('GambitV.Tie.PyLabels', 'GambitV.Tie.Py'), ('GambitV.Tie.PyCalcFiles', 'GambitV.Tie.Py'), ('GambitV.Tie.PyCalcFile', 'GambitV.Tie.Py')]
+TIE = [('GambitV.Tie.PyLabels', 'GambitV.Tie.Py'), ('GambitV.Tie.PyCalcFiles', 'GambitV.Tie.Py'), ('GambitV.Tie.PyCalcFile', 'GambitV.Tie.Py'), ('GambitV.Tie.PySeqFiles', 'GambitV.Tie.Py')]
 RULE = ('(batch of query genomes, order, input channel in {positional, list file + --ldir, pre-computed signature file}, gzip twin or not, output format in '
         '{csv, json, archive}, progress on/off, -c in {none,1,2,4}); plus library-level query() with reference chunk sizes 1..n+1. For every genome the row the real '
         'CLI prints for that genome ALONE (positional, same format) is recorded; every batch must print exactly (label_i, that row) in input order. Labels are '
@@ -94,7 +94,29 @@ def check(ctx, case):
 			lf.write_text(''.join(l + '\n' for l in lines))
 		ids, files = get_sequence_files(pos, lf, 'D')
 		real = '~' if ids is None else ';'.join(f'{i}|{f.path}' for i, f in zip(ids, files))
-		return [f'c08.seqfiles {strs(pos)} {"~" if lines is None else strs(lines)} {hx(real.encode())}'], []
+		# plain forms: the coarse model C08's theorems are about (path text kept as it is); awkward forms: only the model with pathlib's normal form
+		out = [f'c08.seqfiles {strs(pos)} {"~" if lines is None else strs(lines)} {hx(real.encode())}'] if case.get('ldir') is None else []
+		# three-way: get_sequence_files / read_lines / get_file_id generated from the current source, on the same positional paths and on
+		# the lines iterating over the real list file yields (awkward path forms included: the generated code carries pathlib's normal form)
+		for ldir in ([case['ldir']] if case.get('ldir') is not None else ['D']):
+			ids2, files2 = get_sequence_files(pos, lf, ldir)
+			real2 = '~' if ids2 is None else ';'.join(f'{i}|{f.path}' for i, f in zip(ids2, files2))
+			flines = None if lf is None else list(open(lf, encoding='utf-8'))
+			out.append(f'c08.seqfilesp {strs(pos)} {"~" if flines is None else strs(flines)} {hx(ldir.encode())} {hx(real2.encode())}')
+			out.append(f'pyg.seqfiles {strs(pos)} {"~" if flines is None else strs(flines)} {hx(ldir.encode())} {hx(real2.encode())}')
+		return out, []
+	if case['kind'] == 'pathrt':
+		# the text / path built-ins of the run-time library against CPython and pathlib
+		from pathlib import Path
+		out = []
+		for t in case['texts']:
+			out.append(f'pyrt.strip {hx(t.encode())} {hx(t.strip().encode())}')
+			out.append(f'pyrt.rstripnl {hx(t.encode())} {hx(t.rstrip(chr(10)).encode())}')
+		for a in case['paths']:
+			out.append(f'pyrt.pathstr {hx(a.encode())} {hx(str(Path(a)).encode())}')
+			for b in case['paths']:
+				out.append(f'pyrt.pathjoin {hx(a.encode())} {hx(b.encode())} {hx(str(Path(a) / b).encode())}')
+		return out, []
 	if case['kind'] == 'replace':
 		# the SAME path queried twice in one process; in between its content is replaced by another genome of the same byte size,
 		# modification time preserved: the second row is the new genome's row
@@ -200,6 +222,25 @@ def run(ctx):
 		n = len(w.genomes)
 		for pos, lines in [([], None), (['a/b.fasta', 'c.fa.gz'], None), ([], ['x.fna', '', 'sub/y.fasta.gz', '']), (['p.fa'], ['ignored.fa']), ([], [])]:
 			sub({'kind': 'seqfiles', 'pos': pos, 'lines': lines, 'fmt': 'csv', 'g': []}, 'seqfiles')
+		# awkward path forms: only through the library function (the command line rejects directories); labels and paths to open must be
+		# what the generated code says
+		awk = ['a//b.fa', './c.fna', 'd/./e.fasta', '//root/x.fa', '///r3/y.fa.gz', 'sp ace/f g.fa', 'ü/é.fasta', 'x.fa/', 'a/../b.fa', '/abs/z.fa', '.hidden.fa', 'a.b/c.d.fa.gz']
+		for j in range(ctx.q(40, 400)):
+			names = [rng.choice(awk) for _ in range(rng.randint(1, 3))]
+			ldir = rng.choice(['D', 'D/', './D', '/abs/dir', '', 'a//b', '.'])
+			if rng.random() < 0.5:
+				sub({'kind': 'seqfiles', 'pos': names, 'lines': None, 'ldir': ldir, 'fmt': 'csv', 'g': []}, 'seqfiles-awkward')
+			else:
+				ws = rng.choice(['', ' ', '\t', '  ', '\u00a0', '\u2003', '\x0c'])
+				sub({'kind': 'seqfiles', 'pos': [], 'lines': [ws + n_ + rng.choice(['', ' ', '\r', '\t ']) for n_ in names] + rng.choice([[], [''], ['   '], ['\u3000']]),
+				     'ldir': ldir, 'fmt': 'csv', 'g': []}, 'seqfiles-awkward')
+		texts = ['', ' ', 'a', ' a ', '\ta b\n', '\n', 'x\n\n', '\x0b\x0cq\x1c\x1d\x1e\x1f', '\x85n\xa0', '\u1680o\u2000\u200a', '\u2028p\u2029\u202f\u205f\u3000', '\u200bzero-width\u200b', '\ufeffbom', 'é ', '\x00 z']
+		paths = ['', '.', '/', '//', '///', 'a', 'a/', 'a//b', './a', 'a/./b', 'a/..', '../a', '/a/b/', '//a//b', '///a', 'a b/ c', './', '././.', 'é/ü', '.a', 'a.', '..', 'a/.']
+		sub({'kind': 'pathrt', 'texts': texts, 'paths': paths, 'fmt': 'csv', 'g': []}, 'pyrt-text-paths')
+		for j in range(ctx.q(20, 200)):
+			al = 'ab./ '
+			sub({'kind': 'pathrt', 'texts': [''.join(rng.choice(' \t\na\u00a0\u2003b') for _ in range(rng.randint(0, 6))) for _ in range(4)],
+			     'paths': [''.join(rng.choice(al) for _ in range(rng.randint(0, 7))) for _ in range(4)], 'fmt': 'csv', 'g': []}, 'pyrt-text-paths')
 		alpha = 'afstnqgz._-AF1'
 		exts = ['.fasta', '.fna', '.ffn', '.faa', '.frn', '.fa', '.gz', '.fastq', 'fa', 'fasta', '_fa', '.f', '']
 		for j in range(ctx.q(300, 5000)):
